@@ -42,7 +42,7 @@ func depthDocs(thorough bool) [][]byte {
 }
 
 // withFloat: float ops are emitted only once the Coq float model is wired into the driver
-var withFloat = false
+var withFloat = true
 
 func fops(ops []string) []string {
 	if withFloat {
